@@ -20,11 +20,11 @@ EXPLANATION = ('Partial. By contract (obligations from the AST, z3 over extended
                'is not converged) and data_convertor.array_result on the full array (value = a copy of the score column, error = sigma% * score * 0.01 pointwise, the bins of '
                'the array, inputs untouched); and the re-ordering of decreasing bins, DictBuilder.convert_bins_to_increasing_arrays / _flip_bins_for_dim: for the dimension '
                'at position a of self.bins whose first two bins decrease, the bins are reversed and EVERY stored array is flipped along axis a, exactly once; the other '
-               'dimensions and axes are left alone (trace contract over np.flip).  Not decidable by a contract within reach: that the pyparsing grammar (grammar.py, common.py, '
+               'dimensions and axes are left alone (trace contract over np.flip); the whole parseString call runs under the pyparsing lock (structural obligation shared with C11: the grammar rewrites module-level definitions while it parses).  Not decidable by a contract within reach: that the pyparsing grammar (grammar.py, common.py, '
                'transform.py: about 4 600 lines of combinators and parse actions), the scanner\'s state machine and the h5py group walk return what the FILE says -- the '
                'specification would be the Tripoli-4 / Apollo3 output formats themselves.  That part is covered only by the labelled bounded unit: the shipped listings '
                're-written with known, pairwise distinct numbers (tables as printed and in the reverse order), parsed by the real Parser and every number looked up (step-integrated results on the bin of the table they close); and, for Apollo3, every stored result of the shipped HDF5 files read with '
-               'Reader and picked with Picker against the arrays h5py returns, each file followed in the same process by a copy storing its isotopes in the reverse order.')
+               'Reader and picked with Picker against the arrays h5py returns, each file followed in the same process by a copy storing its isotopes in the reverse order; the IFP adjoint-criticality table builder is driven directly for every subset of its six variables (the shipped listing has two layouts only).')
 ASSUMPTIONS = [
     'A-real, A-numpy (pointwise arithmetic, copy, flip(a, axis) reverses along that axis and nothing else); structured arrays are modelled as records of equally shaped field arrays',
     'Dataset.__init__ through its contract (stores value, error, a shallow copy of bins, name, what; C08)',
